@@ -4,6 +4,7 @@ From Coq Require Import List String NArith Bool Permutation.
 Import ListNotations.
 Require Import Verif.Base.Harness Verif.Front.Indent Verif.Front.IndentProps Verif.Gen.LexerTables.
 Require Import Verif.Conc.Keyed Verif.Conc.KeyedProps Verif.Conc.Post Verif.Conc.PostProps.
+Require Import Verif.Conc.Infer Verif.Conc.InferProps Verif.Conc.Claim Verif.Conc.ClaimProps Verif.Conc.CurrentFlags.
 Local Open Scope N_scope.
 
 (* ---------- the indentation machine of Front/Indent.v on the current lexer tables, as a total step ---------- *)
@@ -145,3 +146,50 @@ Definition post_ok (c:post_case) : bool :=
                       end) observed
     && N.eqb (N.of_nat (List.length observed)) (N.of_nat (List.length apps))
   end.
+
+(* 3. (round 3) the whole application loop of postProcess: generated modules with views, untyped nested transforms, lets,
+   mixins that share views; compiled by the real parser with a parser of its own.  Observed per application: member table
+   and view table (name, identity of the view object), both sorted by name; and per nested transform the anonymous type it
+   was given and the application that inferred it, sorted by transform.  The model runs at the flags of the CURRENT source
+   (Conc/CurrentFlags.current_flags); with both loops sorted the oracles do not matter (InferProps.pp_order_independent), so the
+   identity is used. *)
+Definition infer_case := (list (N * list (N * N) * list (N * N * bool * list (option N * list N)) * list N)
+                          * list (N * list (N * N) * list (N * N)) * list (N * (N * N)))%type.
+
+Definition mk_view (v:N * N * bool * list (option N * list N)) : vrec :=
+  match v with (vn, vi, ab, ss) => {| v_name := vn; v_id := vi; v_abs := ab; v_stmts := ss |} end.
+Definition mk_iapp (a:N * list (N * N) * list (N * N * bool * list (option N * list N)) * list N) : iapp :=
+  match a with (n, mem, vs, mix) => {| i_name := n; i_mem := mem; i_views := map mk_view vs; i_mix := mix |} end.
+
+Fixpoint tinsert (x:N * (N * N)) (l:list (N * (N * N))) : list (N * (N * N)) :=
+  match l with
+  | [] => [x]
+  | y :: l' => if N.leb (fst x) (fst y) then x :: l else y :: tinsert x l'
+  end.
+Definition tsort (l:list (N * (N * N))) : list (N * (N * N)) := fold_right tinsert [] l.
+Definition triple_eqb (x y:N * (N * N)) : bool :=
+  N.eqb (fst x) (fst y) && N.eqb (fst (snd x)) (fst (snd y)) && N.eqb (snd (snd x)) (snd (snd y)).
+
+Definition infer_ok (c:infer_case) : bool :=
+  match c with (apps, observed, typed) =>
+    let r := pp current_flags (fun l => l) (fun _ l => l) [] (map mk_iapp apps) in
+    forallb (fun p => match p with (n, mem, vs) =>
+                        match ilookup (p_mod r) n with
+                        | Some a => list_eqb pair_eqb (msort (i_mem a)) mem
+                                    && list_eqb pair_eqb (msort (map (fun v => (v_name v, v_id v)) (i_views a))) vs
+                        | None => false
+                        end
+                      end) observed
+    && N.eqb (N.of_nat (List.length observed)) (N.of_nat (List.length apps))
+    && list_eqb triple_eqb (tsort (p_typed r)) typed
+  end.
+
+(* 4. (round 3) the retrieved-file table: the import statements of a graph, each as (index, spelling) in the harness's own
+   numbering of what a file system makes of the spelling, and the files the real collectSpecs asked the reader for under one
+   forced completion order.  Model: first claim per index; the set of files read must be the same. *)
+Fixpoint ninsert (x:N) (l:list N) : list N :=
+  match l with [] => [x] | y :: l' => if N.leb x y then x :: l else y :: ninsert x l' end.
+Definition nsort (l:list N) : list N := fold_right ninsert [] l.
+Definition claim_case := (list N * list N)%type.
+Definition claim_ok (c:claim_case) : bool :=
+  match c with (claims, reads) => list_eqb N.eqb (nsort (files_read (fun f => f) claims)) (nsort reads) end.
